@@ -6,7 +6,38 @@ import json, os
 from . import build
 
 BASELINE = os.path.join(build.VERIF, "vlib", "literals_baseline.json")
-HSIZES = [0, 1, 2, 3, 4, 5, 6, 7, 8, 9, 10, 12, 16, 17, 32, 64, 100, 255, 256, 257, 1024, 4096, 65536]   # with_size! in the harness
+HSIZES = [0, 1, 2, 3, 4, 5, 6, 7, 8, 9, 10, 12, 16, 17, 32, 64, 100, 255, 256, 257, 1024, 4096, 65536, 100000, 131072, 262144]   # with_size! in harness/sync
+TSIZES = [0, 1, 2, 3, 4, 5, 6, 8, 16, 32, 64, 256, 1024, 4096, 65536, 100000, 131072]   # with_size! in harness/tokio
+
+
+def fold(n):
+    """value of a constant integer expression (literals combined with + - * / << >> and casts), or None"""
+    if not isinstance(n, dict):
+        return None
+    k = n.get("k")
+    if k == "Lit" and n["lit"].get("k") == "Int":
+        try:
+            return int(n["lit"]["digits"])
+        except ValueError:
+            return None
+    if k in ("Paren", "Cast"):
+        return fold(n["e"])
+    if k == "Binary":
+        a, b = fold(n["l"]), fold(n["r"])
+        if a is None or b is None:
+            return None
+        op = n["op"]
+        try:
+            if op == "+": return a + b
+            if op == "-": return a - b
+            if op == "*": return a * b
+            if op == "/": return a // b
+            if op == "%": return a % b
+            if op == "<<": return a << b if b < 70 else None
+            if op == ">>": return a >> b
+        except (ZeroDivisionError, ValueError):
+            return None
+    return None
 
 
 def collect(ast):
@@ -19,14 +50,19 @@ def collect(ast):
                     out.add(int(n["digits"]))
                 except ValueError:
                     pass
-            for v in n.values():
-                walk(v)
+            v = fold(n)
+            if v is not None and 0 <= v < 2 ** 64:
+                out.add(v)
+            for x in n.values():
+                walk(x)
         elif isinstance(n, list):
-            for v in n:
-                walk(v)
+            for x in n:
+                walk(x)
     for f in ast:
         for fn in f["items"]["fns"]:
             walk(fn["body"])
+        for c in f["items"].get("consts", []):
+            walk(c["e"])
     return sorted(out)
 
 
@@ -40,7 +76,7 @@ def current():
 def novel():
     """literals of the working tree that the pinned tree does not contain, with their neighbours"""
     base = set(json.load(open(BASELINE))) if os.path.exists(BASELINE) else set()
-    nv = [v for v in current() if v not in base]
+    nv = sorted((v for v in current() if v not in base), key=lambda v: (v < 256, v))   # sizes and thresholds before byte values
     out = []
     for v in nv:
         for w in (v - 1, v, v + 1):
@@ -51,12 +87,12 @@ def novel():
 
 def exact():
     base = set(json.load(open(BASELINE))) if os.path.exists(BASELINE) else set()
-    return [v for v in current() if v not in base][:8]
+    return sorted((v for v in current() if v not in base), key=lambda v: (v < 256, v))[:8]
 
 
-def size_for(v):
+def size_for(v, sizes=None):
     """smallest harness SIZE strictly greater than v (None if there is none)"""
-    for s in HSIZES:
+    for s in (sizes or HSIZES):
         if s > v:
             return s
     return None
